@@ -632,6 +632,13 @@ def model_requests(case, real):
                 out.append(('is_safe_elem', proto.line(Atom('C06'), Atom('elem'), wire_cfg(cfg2), list(e[1]),
                                                        [[list(a), v] for a, v in e[2]]), expb))
         if real['status'] == 'ok':
+            # a DOCTYPE the filter keeps (no '>' in it, any quotes), as the HTML serializer writes it
+            # and html.parser reads it back, against the html-mode reader of the re-parse theorems
+            # (`feed_doctype_html`: read back whole whatever the quotes)
+            for e in [e for e in real['out'] if e[0] == 'DT'][:1]:
+                rq = doctype_reader_request(e)
+                if rq:
+                    out.append(rq)
             r = real['r']
             for e in real['out']:
                 if e[0] != 'S':
@@ -695,6 +702,36 @@ def model_requests(case, real):
             exp2 = [Atom('err'), Atom(exc_name(ex))]
         out.append(('decode-loop', proto.line(Atom('C06'), Atom('refs'), case['text']), exp2))
     return out
+
+
+def doctype_reader_request(e):
+    from genshi.core import Stream, QName, Attrs, START, END, TEXT, DOCTYPE
+    from harness import outlib
+    pos = (None, 1, 0)
+    try:
+        text = Stream([(DOCTYPE, (e[1], e[2], e[3]), pos), (START, (QName('p'), Attrs()), pos), (TEXT, 'x', pos),
+                       (END, QName('p'), pos)]).render('html', encoding=None, strip_whitespace=False)
+    except Exception:   # a DOCTYPE event without a name: the serializer's business (C08)
+        return None
+    exp = []
+    for t in outlib.html_tokens(text):
+        if t[0] == 'decl':
+            exp.append([Atom('DT'), t[1][8:]] if t[1].startswith('DOCTYPE ') else [Atom('OTHER'), t[1]])
+        elif t[0] == 'start':
+            exp.append([Atom('S'), t[1], [[a, N if v is None else v] for a, v in t[2]], B(False)])
+        elif t[0] == 'startend':
+            exp.append([Atom('S'), t[1], [[a, N if v is None else v] for a, v in t[2]], B(True)])
+        elif t[0] == 'end':
+            exp.append([Atom('E'), t[1]])
+        elif t[0] == 'text':
+            exp.append([Atom('T'), t[1]])
+        elif t[0] == 'comment':
+            exp.append([Atom('C'), t[1]])
+        elif t[0] == 'pi':
+            exp.append([Atom('PI'), t[1]])
+        else:
+            exp.append([Atom('OTHER'), str(t[1])])
+    return ('reader-doctype-html', proto.line(Atom('C06'), Atom('htoks'), text), exp)
 
 
 def compare(cases, reals, res, labels=None):
@@ -815,6 +852,9 @@ def count_branches(real, res):
                     res.count('branch:name-with-brace')
                 if not nm[0] and t.startswith('{}'):
                     res.count('branch:name-in-empty-namespace')
+    for e in real['out']:
+        if e[0] == 'DT' and any(x and ('"' in x or "'" in x) for x in e[1:4]):
+            res.count('branch:doctype-kept-with-quote')
     for an, n in kept.items():
         if an in r['uri_attrs']:
             res.count('branch:uri-attribute-kept', n)
